@@ -226,7 +226,7 @@ def rule_utf(ctx, m):
 
 
 # ---------------------------------------------------------------- value sets of predicates
-def value_set(fn, nid, name_d, width=16, char_size=None):
+def value_set(fn, nid, name_d, width=16, char_size=None, resolve=None):
     """list of disjoint sorted intervals of x in [0, 2^width) for which the condition holds.
     char_size: value of sizeof(Char_T) when the predicate also tests the character width"""
     full = (0, (1 << width) - 1)
@@ -256,17 +256,22 @@ def value_set(fn, nid, name_d, width=16, char_size=None):
         return comp(inter(comp(s), comp(t)))
 
     if k == "UnaryOperator" and n["op"] == "!":
-        return comp(value_set(fn, n["ch"][0], name_d, width, char_size))
+        return comp(value_set(fn, n["ch"][0], name_d, width, char_size, resolve))
     if k == "BinaryOperator" and n["op"] in ("&&", "||"):
-        a, b = value_set(fn, n["ch"][0], name_d, width, char_size), value_set(fn, n["ch"][1], name_d, width, char_size)
+        a, b = value_set(fn, n["ch"][0], name_d, width, char_size, resolve), value_set(fn, n["ch"][1], name_d, width, char_size, resolve)
         return inter(a, b) if n["op"] == "&&" else union(a, b)
     if k == "BinaryOperator" and n["op"] in ("<", "<=", ">", ">=", "==", "!="):
         op = n["op"]
         a, b = n["ch"]
-        c = fn.const_value(b)
+        def cval(x):
+            v = fn.const_value(x)
+            if v is None and resolve is not None:
+                v = resolve(fn, x)
+            return v
+        c = cval(b)
         an = fn.nodes[fn.strip(a)]
         if c is None:
-            c = fn.const_value(a)
+            c = cval(a)
             an = fn.nodes[fn.strip(b)]
             op = {"<": ">", "<=": ">=", ">": "<", ">=": "<=", "==": "==", "!=": "!="}[op]
         if c is None:
